@@ -1,8 +1,13 @@
 """Recording proxies, unique-id streams, deterministic hash-table models and losses (DESIGN 2.2, 2.6)."""
 import hashlib
 import random
+import sys
 
 from .qnum import Q
+
+
+if hasattr(sys, "set_int_max_str_digits"):
+    sys.set_int_max_str_digits(0)      # the hash functions print exact rationals of any size
 
 
 def h(*a):
